@@ -12,6 +12,27 @@ sys.path.insert(0, HERE)
 BASELINE = ("cd /repo && cargo nextest run --workspace --no-fail-fast --offline --test-threads 8 "
             "|| cargo test --workspace --no-fail-fast --offline")
 
+TECH = {
+ 'default': 'bounded-exhaustive enumeration of inputs on the real binary, compared with a reference model on every case (model checking of a sequential program: every input shape up to a stated bound)',
+ 'C01': 'explicit enumeration of all tree shapes x root spellings x depth windows x traversal modes x readdir arrival orders (LD_PRELOAD scheduler) against a walk model; chroot jail for the root /',
+ 'C03': 'breadth-first enumeration of all Boolean formulas up to a connective bound, set-algebra model, differential atom semantics',
+ 'C06': 'enumeration of every LIMIT value for each (tree, query) pair and of every readdir permutation (the schedules that decide tie eviction) against a top-N model',
+ 'C10': 'breadth-first exploration of the token-sequence tree (states = sequences, transitions = append edges) through an in-crate batch hook inside a chroot jail, flagged states and a stratum revalidated on the fresh CLI',
+ 'C11': 'complete exploration of the rendering lattice of each base query (split sets, case, aliases, optional tokens); differential oracle on the parsed Query dump and rows',
+ 'C15': 'enumeration of all expression trees up to an operator bound and of all ordered pairs of an expression pool, float evaluator model, differential independence oracle',
+ 'C17': 'deviation-bounded fault enumeration: every single (thorough: pair of) failing directory/file position through real permissions and an LD_PRELOAD fault injector; every stdout close offset',
+ 'C18': 'enumeration of all link positions x targets x spellings on all small base trees and cyclic pairs, model = walk of the real directory graph, horizon for termination',
+ 'C19': 'fault enumeration: every truncation length and every single-byte corruption of a zip archive, every LIMIT value, controlled clock over all days of month',
+}
+
+
+def level_text(mod):
+    what = {'model_checking': 'Every state of the bounded space below is generated and executed on the real binary, and every execution is compared with the model (all model traces are validated against the implementation, none is sampled)',
+            'exploration': 'The finite input space below is enumerated completely (no sampling) and every case is executed on the real binary and compared with a reference model written from the statement',
+            'fault_enumeration': 'Every fault position of the space below is injected, one at a time (thorough: also pairs), into runs of the real binary; every run is compared with the fault-free run and the model'}[mod.LEVEL]
+    return what + '. Space: ' + mod.RULE + '. Outside these bounds nothing is claimed; a counterexample, if any exists inside them, is found on every run because the enumeration order is fixed.'
+
+
 props = [json.loads(l) for l in open(os.path.join(HERE, 'properties.jsonl'))]
 checks, na = [], []
 hooks_commits = []
@@ -36,10 +57,10 @@ for p in props:
         'evidence_file': '/verif/evidence/%s.json' % pid,
         'replay_cmd_template': './check replay {path}',
         'engine': 'fsx-explorer',
-        'level_claimed': {'category': mod.LEVEL, 'text': mod.LEVEL_TEXT if hasattr(mod, 'LEVEL_TEXT') else mod.RULE,
+        'level_claimed': {'category': mod.LEVEL, 'text': level_text(mod),
                           'design_ref': 'DESIGN.md section 5, ' + pid},
         'level_note': '; '.join(getattr(mod, 'ASSUMPTIONS', [])) or 'trusted base: Python reference model in fsx/props, the OS (lstat/readdir), the fresh-CLI transport',
-        'technique': getattr(mod, 'TECHNIQUE', 'bounded-exhaustive enumeration of inputs/environment answers on the real binary, compared with a reference model on every case'),
+        'technique': TECH.get(pid, TECH['default']),
     })
 man = {
     'version': 1,
